@@ -21,7 +21,7 @@ Absent == [k |-> "absent"]
 None   == [k |-> "none"]
 IntV(i) == [k |-> "int", v |-> i]
 
-AttrNames == {"id", "parent_id", "prio", "tag", "name", "zz"}
+AttrNames == {"id", "parent_id", "prio", "tag", "name", "zz", "margin", "alias_", "index"}
 
 ValueOf(W, t, a) ==
     CASE a = "id"        -> IntV(W.ids[t])
